@@ -1,7 +1,7 @@
 #!/bin/bash
 # Applies each deliberate change to /repo in turn (always reverting), runs checks against it and writes
 # a result table. Usage:
-#   tools/run-mutants.sh <out.md> [--checks "C01 C02 ..."] <patch>...     (patch names starting with
+#   tools/run-mutants.sh <out.md> [--checks "C01 C02 ..."] [--no-suite] <patch>...     (patch names starting with
 #   "revert-" are applied in reverse; default checks: all registered ones, quick tier)
 # Each row: patch | suite (pass/fail) | checks that reported VIOLATION | first counterexample of each.
 set -u
@@ -9,6 +9,7 @@ cd /verif || exit 2
 out="$1"; shift
 checks=""
 if [ "${1:-}" = "--checks" ]; then checks="$2"; shift 2; fi
+nosuite=0; if [ "${1:-}" = "--no-suite" ]; then nosuite=1; shift; fi   # the suite result was established by tools/verify-seed.sh
 [ -z "$checks" ] && checks=$(python3 -c "import json;print(' '.join(c['property_id'] for c in json.load(open('/verif/MANIFEST.json'))['checks']))")
 if [ -n "$(git -C /repo status --porcelain --untracked-files=no)" ]; then echo "run-mutants: /repo is dirty, refusing"; exit 2; fi
 echo "| change | repo suite | reported by (quick tier) | shortest counterexample printed |" > "$out"
@@ -21,7 +22,7 @@ for patch in "$@"; do
   if ! git -C /repo apply $rev "$(realpath "$patch")" 2>/dev/null; then
     echo "| $name | patch does not apply | | |" >> "$out"; continue
   fi
-  if tools/repo-suite.sh /repo >/dev/null 2>&1; then suite="passes"; else suite="FAILS"; fi
+  if [ $nosuite -eq 1 ]; then suite="passes (verify-seed)"; elif tools/repo-suite.sh /repo >/dev/null 2>&1; then suite="passes"; else suite="FAILS"; fi
   hits=""; examples=""
   for id in $checks; do
     log=$(./check "$id" quick 2>&1); rc=$?
